@@ -52,16 +52,26 @@ func buildArithSpace(tier string, seed int64) arithSpace {
 			cx = append(cx, c)
 		}
 		var cy []int64
-		for c := int64(0); c < 130; c++ {
+		for c := int64(0); c < 30; c++ {
 			cy = append(cy, c)
 		}
-		cy = append(cy, 249, 250, 251, 499, 500, 501, 949, 950, 951, 995, 999, 1000, 1001, 9999)
-		s.Xs = opsFrom(cx, -5, 5)
-		s.Ys = opsFrom(cy, -4, 4)
+		cy = append(cy, 49, 50, 51, 95, 99, 100, 101, 125, 249, 250, 251, 499, 500, 501, 999, 1000, 9999)
+		s.Xs = opsFrom(cx, -3, 3)
+		s.Ys = opsFrom(cy, -2, 2)
 		s.Us = append(opsFrom(cx, -7, 7), Edge(EdgeExps)...)
 		s.Xs = append(s.Xs, Edge([]int32{-40, -1, 0, 1, 40})...)
-		s.Ctxs = Contexts([]uint32{1, 2, 3, 4, 5}, true, ModesAll)
-		s.Desc = "thorough: X = all coefficients < 1000 + selected/seed-window 4-digit x exp[-5,5] x sign + EDGE; Y = coefficients < 130 + selection x exp[-4,4] x sign; contexts p in 1..5 x 9 tight + 2 wide exponent ranges x (8 modes + default + unknown)"
+		for _, p := range []uint32{1, 2, 3, 4} {
+			for _, r := range Ranges(p, true) {
+				if r[0] == -3 && r[1] != 9 || r[0] == 0 && r[1] == 9 || r[0] == -100000 {
+					continue
+				}
+				for _, m := range Modes8 {
+					s.Ctxs = append(s.Ctxs, MkCtx(p, r[0], r[1], m, 0))
+				}
+			}
+			s.Ctxs = append(s.Ctxs, MkCtx(p, -1, int32(p)+2, "", 0), MkCtx(p, -1, int32(p)+2, "bogus", 0), MkCtx(p, -100000, 100000, apd.RoundHalfEven, 0))
+		}
+		s.Desc = "thorough: X = all coefficients < 1000 + selected/seed-window 4-digit x exp[-3,3] x sign + EDGE; Y = coefficients < 30 + selection x exp[-2,2] x sign; contexts p in 1..4 x 6 exponent ranges x 8 modes + default/unknown mode + package range"
 		return s
 	}
 	s.Xs = opsFrom(selCoefQuick, -3, 3)
